@@ -56,7 +56,7 @@ fn rng(l: lol_html::html_content::SourceLocation) -> (usize, usize) { let r = l.
 pub fn run_case(line: &str) {
     let m = kv(line);
     let id = line.split(' ').nth(1).unwrap();
-    println!("C {id}");
+    outln!("C {id}");
     let encs = &lol_html::test_utils::ASCII_COMPATIBLE_ENCODINGS;
     let enc0: &'static Encoding = encs[geti(&m, "enc", 23) % encs.len()];
     let meta = getb(&m, "meta");
@@ -97,7 +97,7 @@ pub fn run_case(line: &str) {
             }
         };
         if res != "ok" { all_ok = false; }
-        println!("R {k} {res}");
+        outln!("R {k} {res}");
     }
     drop(rw);
     let o = obs.borrow();
@@ -201,11 +201,11 @@ pub fn run_case(line: &str) {
             bad.push(format!("set_encoding calls (encoding, bytes emitted before) = {:?}, expected {:?}", calls.iter().map(|(e, n)| (e.name(), *n)).collect::<Vec<_>>(), want.iter().map(|(e, n)| (e.name(), *n)).collect::<Vec<_>>()));
         }
     }
-    for b in bad.iter().take(3) { println!("X c13-bad {}", b.replace('\n', " ")); }
-    for b in bad14.iter().take(3) { println!("X c14-bad {}", b.replace('\n', " ")); }
-    println!("X c13-stats enc={} nodes={} chunks={} long={} nonascii={} malformed={} tags={} comments={} switched={}", enc0.name(), n_nodes, n_chunks, n_long, n_nonascii, n_malformed,
+    for b in bad.iter().take(3) { outln!("X c13-bad {}", b.replace('\n', " ")); }
+    for b in bad14.iter().take(3) { outln!("X c14-bad {}", b.replace('\n', " ")); }
+    outln!("X c13-stats enc={} nodes={} chunks={} long={} nonascii={} malformed={} tags={} comments={} switched={}", enc0.name(), n_nodes, n_chunks, n_long, n_nonascii, n_malformed,
         o.tags.len(), o.comments.len(), matches!(switch, Some((p, e)) if p != usize::MAX && e != enc0) as u8);
-    println!(".");
+    outln!(".");
 }
 fn trunc(s: &str) -> String { s.chars().take(40).collect() }
 
@@ -214,8 +214,8 @@ fn trunc(s: &str) -> String { s.chars().take(40).collect() }
 pub fn run_td_case(line: &str) {
     let m = kv(line);
     let id = line.split(' ').nth(1).unwrap();
-    println!("C {id}");
-    println!("S e0");
+    outln!("C {id}");
+    outln!("S e0");
     let log: Rc<RefCell<Vec<String>>> = Rc::new(RefCell::new(vec![]));
     let l2 = log.clone();
     let settings = Settings::new().append_document_content_handler(DocumentContentHandlers::default()
@@ -230,8 +230,8 @@ pub fn run_td_case(line: &str) {
                 Op::End => if r.end().is_ok() { "ok".into() } else { "err".to_string() },
             },
         };
-        for l in log.borrow_mut().drain(..) { println!("{l}"); }
-        println!("R {k} {res}");
+        for l in log.borrow_mut().drain(..) { outln!("{l}"); }
+        outln!("R {k} {res}");
     }
-    println!(".");
+    outln!(".");
 }
